@@ -87,6 +87,20 @@ Theorem C10_accepted_configuration_can_be_sent : forall cfg, cfg_ok cfg = true -
        [(73, VSome (VInt (c_currency cfg))); (4, VSome (VInt (c_amount cfg))); (25, VSome (VInt 64)); (6, bmp60 tok)] <> nil).
 Proof. exact accepted_configuration_can_be_sent. Qed.
 
+(* ... nor can any later request fail to encode (the model's `mk_cmd` writes the empty packet where the code's encoder would
+   panic — that case is excluded here for EVERY request of EVERY public operation): receipt numbers as a terminal issues them,
+   terminal ids as set_terminal_id lets them through, tokens as C08 quantifies them *)
+Theorem C10_accepted_configuration_never_fails_to_encode : forall cfg, cfg_ok cfg = true ->
+  (forall tok pl rn amount, token_ok tok pl -> rn < 10000 ->
+     mk_cmd "zvt::packets::PartialReversal" nil
+       [(135, VSome (VInt rn)); (73, VSome (VInt (c_currency cfg))); (4, VSome (VInt (c_amount cfg - amount))); (25, VSome (VInt 64)); (6, bmp60 tok)] <> nil) /\
+  (forall rn, rn < 10000 ->
+     mk_cmd "zvt::packets::PreAuthReversal" nil [(25, VSome (VInt 64)); (73, VSome (VInt (c_currency cfg))); (135, VSome (VInt rn))] <> nil) /\
+  (forall n, n <= 99999999 -> mk_cmd "zvt::packets::SetTerminalId" [VInt (c_password cfg)] [(41, VSome (VInt n))] <> nil) /\
+  mk_cmd "zvt::packets::PartialReversal" nil [(135, VSome (VInt 65535))] <> nil /\
+  sysinfo_cmd <> nil.
+Proof. exact accepted_configuration_never_fails_to_encode. Qed.
+
 Print Assumptions C10_read_card_timeout_ok.
 Print Assumptions C10_poll_ends_by_deadline.
 Print Assumptions C10_retry_budget_bounds_the_poll.
@@ -113,3 +127,4 @@ Print Assumptions C10_single_exchange_call_elapsed.
 Print Assumptions C10_every_call_returns_in_bounded_time.
 Print Assumptions C10_invalid_configuration_is_refused.
 Print Assumptions C10_accepted_configuration_can_be_sent.
+Print Assumptions C10_accepted_configuration_never_fails_to_encode.
